@@ -488,6 +488,11 @@ def nesting_programs(depth):
                 yield seq, boom
 
 
+def _under(ctx, fn):
+    with ctx():
+        return fn()
+
+
 def runtime_part(run, tier):
     import synapgrad
     from synapgrad.tensor import Tensor
@@ -637,6 +642,33 @@ def runtime_part(run, tier):
             what = "raised RuntimeError"
         if not ok:
             run.violation("synapgrad.tensor.Tensor.__init__.only_float_requires_grad", "%s: %s" % (name, what), key={"constructor": name, "clause": "final dtype decides"}, replay={})
+    # "a result that does not require grad never acquires a .grad" -- also when it is made from a tensor that already HOLDS one (a leaf after backward, the root, a retained
+    # interior tensor), and whatever is swept afterwards
+    import synapgrad.functional as F_
+    for dt in (np.float32, np.float64):
+        a = Tensor(np.array([1.0, 2.0], dtype=dt), requires_grad=True)
+        m = a * 3.0
+        m.retain_grad()
+        y = (m * m).sum()
+        y.backward()
+        holders = {"leaf after backward": a, "retained interior tensor": m, "root": y}
+        makers = {"detach()": lambda t: t.detach(), "op under no_grad": lambda t: _under(tm.no_grad, lambda: t * 2.0), "unary op under no_grad": lambda t: _under(tm.no_grad, lambda: F_.exp(t)),
+                  "reshape under no_grad": lambda t: _under(tm.no_grad, lambda: F_.reshape(t, t.shape)), "clone under no_grad": lambda t: _under(tm.no_grad, lambda: t.clone())}
+        made = []
+        for hname, h in holders.items():
+            for mname, mk_ in makers.items():
+                run.rt(("untracked-from-holder", hname, mname, np.dtype(dt).name))
+                try:
+                    d = mk_(h)
+                except Exception:
+                    continue
+                made.append((hname, mname, d))
+        (a * a).sum().backward()            # a later sweep through the source
+        for hname, mname, d in made:
+            if d.requires_grad or d._grad is not None or d.grad_fn is not None:
+                run.violation("synapgrad.tensor.Tensor.untracked_result_never_acquires_grad", "%s of a %s (%s): requires_grad=%s, grad_fn %s, .grad %s" %
+                              (mname, hname, np.dtype(dt).name, d.requires_grad, "set" if d.grad_fn is not None else "None", "None" if d._grad is None else np.asarray(d._grad).tolist()),
+                              key={"made_by": mname, "source": hname}, replay={"made_by": mname, "source": hname, "dtype": np.dtype(dt).name})
     # toggling requires_grad on non-leaves is refused
     a = Tensor(np.array([1.0]), requires_grad=True)
     y = a * 2.0
